@@ -212,6 +212,9 @@ def class_specs(draw, name, earlier, allow_hooks=True):
             c['sav'] = {'fill': fill}
         elif h in (3, 4) and (any(p['d'] is not None for p in params) or c['base']):
             c['swe'] = 'defaults'
+        elif h == 9:
+            # (1.0 / True, 0.0 / False, 0.0 / -0.0, 1 / True: equal values of different types)
+            c['swe'] = {'mark': draw(st.sampled_from([True, False, 1.0, 0.0, -0.0, 1, 0, 'v1', None]))}
         c['rec'] = draw(st.integers(0, 7)) == 0
         c['attrs'] = draw(st.integers(0, 9)) == 0
     if params and not c.get('dc') and not c.get('swe') and draw(st.integers(0, 9 if not c['extra'] else 3)) == 0:
